@@ -171,6 +171,8 @@ def handler_plans():
         R(status=51, meta="ünï ✓ meta"),
         R(status=20, meta="text/plain; a=vt\x0bff\x0cfs\x1c; b=nel\u0085ls\u2028ps\u2029", body="exotic separators"),
         R(status=10, meta="prompt ends with a separator\u2028"),
+        # an exact multiple of 64 KiB above 64 KiB (chunked-write remainders)
+        R(status=20, meta="application/octet-stream", body=bytes(range(256)) * 512),
     ]
     bad = [
         R(status=51, meta="text/gemini", body="# Error 51\n\nnot found body\n"),
